@@ -27,8 +27,8 @@ def preload():
 def gen_case(rng, tier, idx):
     # mostly moderate discounts; a few per cent close to 1, where planning on the empirical model needs thousands of sweeps
     spec = gen_mdp_spec(rng, proper=True, uniform_actions=True, discounts=(0.99, 0.995, 0.999) if rng.random() < 0.04 else (0.5, 0.8, 0.9, 0.95))
-    cfg = dict(m=rng.randint(1, 5), tol=rng.choice((1e-3, 1e-5)), episodes=rng.randint(1, 6), seed=rng.choice((0, 1, 5, 99)),
-               reuse=rng.randrange(1000) if rng.random() < 0.15 else None, alias=rng.choice(('fresh', 'fresh', 'cached', 'shared')))
+    cfg = dict(m=rng.randint(1, 5), tol=rng.choice((1e-3, 1e-5)), episodes=rng.randint(1, 6) if rng.random() < 0.98 else 0, seed=rng.choice((0, 1, 5, 99, None)),
+               reuse=rng.randrange(1000) if rng.random() < 0.15 else None, alias=rng.choice(('fresh', 'fresh', 'cached', 'shared', 'tuple')), explicit_lists=rng.random() < 0.25)
     plain = idx % 4 == 0
     sched = gen_sched(rng, ('P',) if plain else ('P', 'U', 'R', 'R', 'X'))
     if plain:
@@ -42,7 +42,7 @@ def execute(case, script=None):
     ctx = RunCtx(PROP, view)
     ctx.W = game_W(view)
     ctx.declare_probes('pair_at_exactly_m', 'pair_at_m_minus_1_at_end', 'pair_sampled_beyond_m', 'unknown_pair_at_end',
-                       'episode_from_absorbing_start', 'learner_reused', 'discount_close_to_one')
+                       'episode_from_absorbing_start', 'learner_reused', 'discount_close_to_one', 'explicit_state_list_with_unreachable_states')
     sched = make_scheduler(case, script, ctx)
     try:
         return _execute(rm, view, case['cfg'], ctx, sched)
@@ -51,7 +51,7 @@ def execute(case, script=None):
 
 
 def _execute(rm, view, cfg, ctx, sched):
-    mdp = make_mdp(view, ctx, alias=cfg.get('alias', 'fresh'))
+    mdp = make_mdp(view, ctx, alias=cfg.get('alias', 'fresh'), explicit_lists=cfg.get('explicit_lists', False))
     g = view.gamma
     if g >= 0.99:
         ctx.probe('discount_close_to_one')
@@ -69,8 +69,11 @@ def _execute(rm, view, cfg, ctx, sched):
                     reach0.add(t_)
                     fr0.append(t_)
     # the model's maximum reward = max of its reward tensor over the reachable state list (unfilled cells are 0)
-    cells = [view.R[s, a, t] for (s, a), d in view.T.items() if s in reach0 for t in d]
-    if len(cells) < len(reach0) * view.spec['nA'] * len(reach0):
+    listed = set(range(view.N)) if cfg.get('explicit_lists') else reach0      # the model's state list
+    if cfg.get('explicit_lists') and len(reach0) < view.N:
+        ctx.probe('explicit_state_list_with_unreachable_states')
+    cells = [view.R[s, a, t] for (s, a), d in view.T.items() if s in listed for t in d]
+    if len(cells) < len(listed) * view.spec['nA'] * len(listed):
         cells.append(0.0)
     rmax = max(cells)
     opt = rmax / (1 - g)
@@ -91,7 +94,8 @@ def _execute(rm, view, cfg, ctx, sched):
                     if t_ not in reach:
                         reach.add(t_)
                         fr.append(t_)
-        ctx.check(set(Qr) == reach, 'result-shape', lambda: f"{where}: Q has states {sorted(Qr)}, reachable are {sorted(reach)}")
+        expect = set(range(view.N)) if cfg.get('explicit_lists') else reach
+        ctx.check(set(Qr) == expect, 'result-shape', lambda: f"{where}: Q has states {sorted(Qr)}, the model's state list is {sorted(expect)}")
         for s in Qr:
             ctx.check(set(Qr[s]) == set(range(nA)), 'result-shape', lambda: f"{where}: Q[{s}] has actions {sorted(Qr[s])}")
             for a, v in Qr[s].items():
@@ -183,7 +187,7 @@ def _execute(rm, view, cfg, ctx, sched):
             if sib is not None:
                 # fault F5: the same learner object is first trained on a sibling problem (same keys, one more absorbing state)
                 sview = MDPView(sib)
-                smdp_ = make_mdp(sview, ctx, alias=cfg.get('alias', 'fresh'))
+                smdp_ = make_mdp(sview, ctx, alias=cfg.get('alias', 'fresh'), explicit_lists=cfg.get('explicit_lists', False))
                 import numpy as _np
                 if float(_np.max(smdp_.reward_matrix)) == rmax:      # the learner asserts rmax == max reward of the model it is given
                     sched.fire('F5_object_reuse')
